@@ -41,6 +41,9 @@ KERNELS = {
 }
 # the same kernels 1500 lines into a file (their second-iteration copies are numbered relative
 # to the highest line number, which every worker has to agree on)
+# a cycle made of zero-latency instructions only (eliminated moves), next to ordinary ones
+KERNELS["k10"] = ["mv0 %r8, %r9", "mv0 %r9, %r8", "opbs %r10, %r10", "mv0 %r11, %r11",
+                  "tie %r12, %r12"]
 KERNELS["k4hi"] = [""] * 1500 + KERNELS["k4"]
 KERNELS["k6hi"] = [""] * 1500 + KERNELS["k6"]
 
@@ -235,6 +238,7 @@ def run(ctx):
             ("k7", 2, -1, None), ("k7", 3, -1, None), ("k7", 4, -1, None),
             ("k8", 1, -1, None), ("k8", 2, -1, None), ("k8", 3, -1, 3), ("k8", 5, -1, 2),
             ("k4hi", 2, -1, None), ("k4hi", 3, -1, 3), ("k6hi", 3, -1, 2),
+            ("k10", 2, -1, None), ("k10", 3, -1, 3), ("k10", 1, -1, None),
             ]
     # one schedule each is enough here: what is lost does not depend on the order
     plan = [("k9", 3, -1, 0)] + plan
